@@ -225,7 +225,8 @@ class Facts:
         if not hasattr(self, "_body_cache"):
             self._body_cache = {}
         if def_path not in self._body_cache:
-            self._body_cache[def_path] = Body(bs[0], self)
+            import inline
+            self._body_cache[def_path] = Body(inline.inline_raw(self, bs[0])[0], self)
         return self._body_cache[def_path]
 
     def has_body(self, def_path):
@@ -236,10 +237,14 @@ class Facts:
             if not hasattr(self, "_body_cache"):
                 self._body_cache = {}
             out = []
+            import inline
+            hidden = inline.absorbed(self)
             for raw in self.data["bodies"]:
+                if raw["def"] in hidden:
+                    continue        # a helper unknown to the rules: analysed where it is called (inlined there)
                 if len(self.bodies.get(raw["def"], [])) == 1:
                     if raw["def"] not in self._body_cache:
-                        self._body_cache[raw["def"]] = Body(raw, self)
+                        self._body_cache[raw["def"]] = Body(inline.inline_raw(self, raw)[0], self)
                     out.append(self._body_cache[raw["def"]])
                 else:
                     out.append(Body(raw, self))
@@ -528,9 +533,62 @@ class Body:
             elif isinstance(e, dict) and "cidx" in e:
                 base = ("index", base, ("const", e["cidx"]))
             elif isinstance(e, dict) and "down" in e:
-                base = ("downcast", base, e.get("name") or e["down"])
+                vname = e.get("name") or e["down"]
+                base = self.select_variant(base, vname, depth)
+                base = ("downcast", base, vname) if not (isinstance(base, tuple) and base and base[0] == "adt" and base[2] == vname) else base
             else:
                 base = ("proj", base, json.dumps(e, sort_keys=True))
+        return base
+
+    def variant_defs(self, l, vnames):
+        """Definitions of local l that build one of the variants `vnames`, provided every definition of l builds a known variant
+        (enum aggregates only, possibly through plain copies of such locals): [(block, rvalue)] or None."""
+        ds = self.defs().get(l, [])
+        if not ds or any(d[2] not in ("assign", "call") for d in ds):
+            return None
+        hit = []
+        for (bi, si, kind, rv) in ds:
+            if kind == "call":
+                # `?` in an inlined helper: from_residual builds the Err / None of the enclosing function's return type
+                if rv["callee"].get("def") == "std::ops::FromResidual::from_residual" and not (set(vnames) & {"Err", "None"}):
+                    continue
+                return None
+            if rv["r"] == "agg" and rv.get("agg") == "adt" and rv.get("vname"):
+                if rv["vname"] in vnames:
+                    hit.append((bi, rv))
+            elif rv["r"] == "use":
+                q = operand_place(rv["o"])
+                if q is None or q["p"] or q["l"] == l:
+                    return None
+                sub = self.variant_defs(q["l"], vnames)
+                if sub is None:
+                    return None
+                hit.extend(sub)
+            else:
+                return None
+        return hit
+
+    def select_variant(self, base, vname, depth=0):
+        """Reading `(x as V)` is only meaningful when x holds variant V: if x is a local all of whose definitions build known
+        variants and exactly one builds V, the read sees that aggregate. `(Try::branch(x) as Continue)` is `(x as Ok | Some)`."""
+        if not (isinstance(base, tuple) and base):
+            return base
+        want = (vname,)
+        t = base
+        if t[0] == "call" and t[1].endswith("::branch") and "Try" in t[1] and len(t[2]) == 1 and vname == "Continue":
+            inner = t[2][0]
+            if isinstance(inner, tuple) and inner and inner[0] == "var":
+                hit = self.variant_defs(inner[1], ("Ok", "Some"))
+                if hit is not None and len(hit) == 1:
+                    rv = hit[0][1]
+                    if len(rv["ops"]) == 1:
+                        # Continue(payload): present it as the aggregate the projection `.0` resolves against
+                        return ("adt", "std::ops::ControlFlow", "Continue", ("0",), (self.term_of_operand(rv["ops"][0], depth + 1),))
+            return base
+        if t[0] == "var":
+            hit = self.variant_defs(t[1], want)
+            if hit is not None and len(hit) == 1:
+                return self.term_of_rvalue(hit[0][1], depth + 1)
         return base
 
     def term_of_local(self, l, depth=0, at=None):
@@ -612,7 +670,7 @@ def proj_field(base, e):
         if e["f"] == 0:
             return ("bin", base[1][: -len("WithOverflow")], base[2], base[3])
         return ("overflowflag", base)
-    if isinstance(base, tuple) and base[0] == "tuple" and isinstance(e["f"], int) and e["f"] < len(base[1]):
+    if isinstance(base, tuple) and base[0] in ("tuple", "closure") and isinstance(e["f"], int) and e["f"] < len(base[1]):
         return base[1][e["f"]]
     if isinstance(base, tuple) and base[0] == "adt" and name in base[3]:
         return base[4][base[3].index(name)]
